@@ -227,6 +227,10 @@ class StmtMixin:
                 if isinstance(base, Exc):
                     res.append((s, base))
                     continue
+                if isinstance(base, VFunc) and base.kind == "module" and base.name == "sys" and target.attr in ("stdout", "stderr"):
+                    s.env[f"ghost_sys_{target.attr}"] = val
+                    res.append((s, None))
+                    continue
                 if not (isinstance(base, VRef) and isinstance(s.heap[base.ref], ObjState)):
                     raise Unsupported(f"attribute assignment on {type(self.deref(base, s)).__name__}")
                 obj = s.heap[base.ref]
